@@ -12,6 +12,7 @@
 import Alpaqa.Proofs.FistaInv
 import Alpaqa.Props.C03_Fista
 import Alpaqa.Props.C06
+import Alpaqa.Proofs.FistaFuel
 
 namespace Alpaqa.Props.C06_Fista
 open Alpaqa Alpaqa.Fista Alpaqa.Gen Alpaqa.Props.C03_Fista
@@ -310,6 +311,90 @@ theorem fista_no_progress_counter (P : Problem α) (pr : Params α) (stop : Nat 
         (mainLoop P pr stop oot x0 y Sig errz0 (pr.maxIter + 2) s).callbacks) 0
     omega
 
+/-! ### ε is the *documented* criterion of the proximal data of the written-back point
+
+`fista_result_at_last_head` says ε is the generated formula of the final iterate's fields.  Here those fields
+are tied to the point: `∇ψ` is the gradient oracle's answer at `x`, `(x̂, p)` the projected-gradient step from
+`(x, γ, ∇ψ(x))`, `ŷ(x̂)` and `∇ψ(x̂)` the oracles' answers at that `x̂` (when the criterion reads them), `γ > 0`,
+`x̂` is what is written back — and ε is the independent specification `Props/C06.docCrit` of these data. -/
+
+/-- the gradient oracle the loop uses for `∇ψ(x)` (`eval_grad_ψ` with a fixed step size, else
+    `eval_ψ_grad_ψ`) -/
+def gradAt (P : Problem α) (pr : Params α) (x : Vec α) : Vec α :=
+  if fixedLip pr then P.gradPsi x else (P.psiGradPsi x).2.1
+
+/-- `∇ψ` held by the iterate is the gradient oracle's answer at its own `x` -/
+def GradCons (P : Problem α) (pr : Params α) (i : Iterate α) : Prop := i.gradPsi = gradAt P pr i.x
+
+theorem qubLoop_keeps (P : Problem α) (pr : Params α) (stop : Nat → Bool) (f : Nat) (c : Iterate α)
+    (t b : Nat) :
+    (qubLoop P pr stop f c t b).1.x = c.x ∧ (qubLoop P pr stop f c t b).1.gradPsi = c.gradPsi := by
+  induction f generalizing c t b with
+  | zero => exact ⟨rfl, rfl⟩
+  | succ f ih =>
+    unfold qubLoop
+    split_ifs
+    · exact ⟨rfl, rfl⟩
+    · have := ih (evalPsiHat P (evalProxGradStep P
+        { c with gamma := (fista_backtrack c.gamma c.L).1, L := (fista_backtrack c.gamma c.L).2 })) (t + 2) (b + 1)
+      exact ⟨this.1, this.2⟩
+    · exact ⟨rfl, rfl⟩
+
+theorem proxStage_keeps (P : Problem α) (pr : Params α) (stop : Nat → Bool) (s : St α) :
+    (proxStage P pr stop s).curr.x = s.curr.x ∧ (proxStage P pr stop s).curr.gradPsi = s.curr.gradPsi := by
+  have hq := qubLoop_keeps P pr stop pr.qubFuel (firstStep P pr s) (firstTick pr s) s.backtracks
+  have hf : (firstStep P pr s).x = s.curr.x ∧ (firstStep P pr s).gradPsi = s.curr.gradPsi := by
+    unfold firstStep; simp only []; split_ifs <;> exact ⟨rfl, rfl⟩
+  have hw : ∀ c : Iterate α, (withGradHat P pr c).x = c.x ∧ (withGradHat P pr c).gradPsi = c.gradPsi := by
+    intro c; unfold withGradHat; split_ifs <;> exact ⟨rfl, rfl⟩
+  unfold proxStage
+  simp only []
+  exact ⟨by rw [(hw _).1, hq.1, hf.1], by rw [(hw _).2, hq.2, hf.2]⟩
+
+theorem advance_gradCons (P : Problem α) (pr : Params α) (s : St α) (eps : α) :
+    GradCons P pr (advance P pr s eps).curr := by
+  unfold advance GradCons gradAt
+  cases hf : fixedLip pr <;> simp [evalPsiGradPsi, evalGradPsi]
+
+theorem initState_gradCons (P : Problem α) (pr : Params α) (x0 gV : Vec α) (nan : α) (s : St α)
+    (h : initState P pr x0 gV nan = .inr s) : GradCons P pr s.curr := by
+  unfold initState at h
+  simp only [] at h
+  split_ifs at h
+  injection h with h
+  subst h
+  unfold GradCons gradAt initIterate
+  cases hf : fixedLip pr
+  · simp only [Bool.false_eq_true, if_false]
+    split_ifs <;> simp [initialLipschitz, evalPsiGradPsi, blankIterate]
+  · simp [evalGradPsi, blankIterate]
+
+/-- The main loop ends at a loop head of a state satisfying any invariant that `advance ∘ head ∘ prox`
+    re-establishes. -/
+theorem mainLoop_endsAt_inv (P : Problem α) (pr : Params α) (stop : Nat → Bool) (oot : Bool)
+    (x0 y Sig errz0 : Vec α) (Inv : St α → Prop)
+    (hadv : ∀ s, Inv s → Inv (advance P pr (headStep P pr stop oot (proxStage P pr stop s)).1
+      (headStep P pr stop oot (proxStage P pr stop s)).2.1))
+    (fuel : Nat) (s : St α) (hinv : Inv s) (hk : s.k ≤ pr.maxIter) (hfuel : pr.maxIter + 1 ≤ fuel + s.k) :
+    ∃ s' : St α, Inv s' ∧
+      mainLoop P pr stop oot x0 y Sig errz0 fuel s =
+        exitBlock P pr (headStep P pr stop oot (proxStage P pr stop s')).1
+          (headStep P pr stop oot (proxStage P pr stop s')).2.1
+          (headStep P pr stop oot (proxStage P pr stop s')).2.2 x0 y Sig errz0 := by
+  induction fuel generalizing s with
+  | zero => omega
+  | succ f ih =>
+    unfold mainLoop
+    simp only []
+    split_ifs with hb
+    · exact ⟨s, hinv, rfl⟩
+    · have hbusy : (headStep P pr stop oot (proxStage P pr stop s)).2.2 = .Busy := by simpa using hb
+      have hkne := headStep_busy_k P pr stop oot _ hbusy
+      rw [(proxStage_k P pr stop s).1] at hkne
+      apply ih _ (hadv s hinv)
+      · rw [(advance_k _ _ _ _).1, (headStep_curr P pr stop oot _).2.1, (proxStage_k P pr stop s).1]; omega
+      · rw [(advance_k _ _ _ _).1, (headStep_curr P pr stop oot _).2.1, (proxStage_k P pr stop s).1]; omega
+
 /-! ### Non-vacuity (the concrete run of `Props/C03_Fista`) -/
 
 local instance instRealLikeRatC06F : RealLike ℚ := ⟨id, fun _ => false, fun _ => true⟩
@@ -356,5 +441,168 @@ example : exPrNp.maxNoProgress <
 example : (run exP2 { exPr with maxIter := 2, tolerance := 1/1000 }
       (fun _ => false) false [2] [1] [2] [0] [] 0 0).stats.iterations = 2 := by
   decide +kernel
+
+/-! ### `eps_is_documented` (linearly ordered fields) -/
+section field
+open C06Spec
+variable {β : Type} [Field β] [LinearOrder β] [IsStrictOrderedRing β] [RealLike β]
+
+theorem qubLoop_gamma_pos (P : Problem β) (pr : Params β) (stop : Nat → Bool) (f : Nat) (c : Iterate β)
+    (t b : Nat) (h : 0 < c.gamma) : 0 < (qubLoop P pr stop f c t b).1.gamma := by
+  induction f generalizing c t b with
+  | zero => exact h
+  | succ f ih =>
+    unfold qubLoop
+    split_ifs
+    · exact h
+    · apply ih
+      show 0 < c.gamma / 2
+      positivity
+    · exact h
+
+theorem proxStage_gamma_pos (P : Problem β) (pr : Params β) (stop : Nat → Bool) (s : St β)
+    (h : 0 < s.curr.gamma) : 0 < (proxStage P pr stop s).curr.gamma := by
+  have hf : (firstStep P pr s).gamma = s.curr.gamma := by
+    unfold firstStep; simp only []; split_ifs <;> rfl
+  have hq := qubLoop_gamma_pos P pr stop pr.qubFuel (firstStep P pr s) (firstTick pr s) s.backtracks
+    (by rw [hf]; exact h)
+  unfold proxStage withGradHat
+  simp only []
+  split_ifs <;> exact hq
+
+/-- **`ε` is the documented criterion of the proximal data of the written-back point.**  For a FISTA solve
+    that entered the loop, with `c` the iterate handed to the final callback:
+    `γ > 0`; `c.∇ψ` is the gradient oracle's answer at `c.x`; `c.x̂ = Π_C(c.x − γ c.∇ψ)`, `c.p = c.x̂ − c.x` (the
+    problem's prox step being the projection, `ProxIsProj`); when the criterion reads them
+    (`ApproxKKT`, `ApproxKKT2`, `Ipopt`) `c.ŷ` is the ψ-oracle's multiplier *at `c.x̂`* and `c.∇ψ̂` the gradient
+    oracle's answer *at `(c.x̂, c.ŷ)`* — also with a fixed step size and after backtracking; the returned
+    `ε = docCrit` (`Props/C06`, the independent specification of the ten criteria) of these data; and the
+    written-back `x` is `c.x̂`.  Hypotheses: `0 < Lγ_factor`, `FistaFuelOK` (positivity of `L`), no NaN. -/
+theorem fista_eps_is_documented (hnn : ∀ a : β, RealLike.isNaN a = false) (PC : Vec β → Vec β)
+    (P : Problem β) (hP : C06.ProxIsProj PC (fun γ x g => ((P.prox γ x g).2.1, (P.prox γ x g).2.2)))
+    (pr : Params β) (hpos : 0 < pr.LgammaFactor) (nL : Nat) (hF : FistaFuelOK pr nL)
+    (stop : Nat → Bool) (oot : Bool) (x0 y Sig errz0 gV : Vec β) (nan inf : β)
+    (h : EndsAt P pr stop oot x0 y Sig errz0 (run P pr stop oot x0 y Sig errz0 gV nan inf)) :
+    ∃ c : Iterate β,
+      ((run P pr stop oot x0 y Sig errz0 gV nan inf).callbacks.getLast?).map (·.it) = some c ∧
+      0 < c.gamma ∧ c.gradPsi = gradAt P pr c.x ∧
+      c.xhat = PC (vsub c.x (smul c.gamma c.gradPsi)) ∧ c.p = vsub c.xhat c.x ∧
+      (requiresGradHat pr.stopCrit = true →
+        c.yhat = (P.psi c.xhat).2 ∧ c.gradPsiHat = P.gradL c.xhat c.yhat) ∧
+      (run P pr stop oot x0 y Sig errz0 gV nan inf).stats.eps =
+        C06.docCrit PC pr.stopCrit c.gamma c.x c.xhat c.yhat c.gradPsi c.gradPsiHat ∧
+      ((run P pr stop oot x0 y Sig errz0 gV nan inf).wrote = true →
+        (run P pr stop oot x0 y Sig errz0 gV nan inf).x = c.xhat) := by
+  unfold run at h ⊢
+  cases hi : initState P pr x0 gV nan with
+  | inl t =>
+    rw [hi] at h
+    obtain ⟨s, _, _, _, hr⟩ := h
+    simp only [] at hr
+    have : (exitBlock P pr (headStep P pr stop oot (proxStage P pr stop s)).1
+      (headStep P pr stop oot (proxStage P pr stop s)).2.1
+      (headStep P pr stop oot (proxStage P pr stop s)).2.2 x0 y Sig errz0).callbacks ≠ [] := by
+      unfold exitBlock; simp
+    rw [← hr] at this
+    exact absurd rfl this
+  | inr s0 =>
+    simp only []
+    have hk := initState_k P pr x0 gV nan s0 hi
+    have hg0 := initState_gradCons P pr x0 gV nan s0 hi
+    have hγ0 : 0 < s0.curr.gamma := by
+      have hlb := initIterate_lbound P pr x0 gV nan nL hF
+      unfold initState at hi
+      simp only [] at hi
+      split_ifs at hi
+      injection hi with hi
+      subst hi
+      show 0 < fista_gammaInit pr.LgammaFactor _
+      unfold fista_gammaInit
+      exact div_pos hpos hlb.1
+    obtain ⟨s, ⟨hg, hγ⟩, hr⟩ := mainLoop_endsAt_inv P pr stop oot x0 y Sig errz0
+      (fun s => GradCons P pr s.curr ∧ 0 < s.curr.gamma)
+      (fun s hs => by
+        refine ⟨advance_gradCons P pr _ _, ?_⟩
+        have e4 : (advance P pr (headStep P pr stop oot (proxStage P pr stop s)).1
+            (headStep P pr stop oot (proxStage P pr stop s)).2.1).curr.gamma =
+            (headStep P pr stop oot (proxStage P pr stop s)).1.curr.gamma := by
+          unfold advance; cases hf : fixedLip pr <;> simp [evalPsiGradPsi, evalGradPsi]
+        rw [e4, (headStep_curr P pr stop oot _).1]
+        exact proxStage_gamma_pos P pr stop s hs.2)
+      (pr.maxIter + 2) s0 ⟨hg0, hγ0⟩ (by rw [hk.1]; omega) (by omega)
+    rw [hr]
+    have hhc := headStep_curr P pr stop oot (proxStage P pr stop s)
+    have hkeep := proxStage_keeps P pr stop s
+    have hgood := proxStage_good P pr stop s
+    have hgh := proxStage_gradHat P pr stop s
+    have hγc := proxStage_gamma_pos P pr stop s hγ
+    have hcons : C06.Consistent PC (proxStage P pr stop s).curr.gamma (proxStage P pr stop s).curr.p
+        (proxStage P pr stop s).curr.x (proxStage P pr stop s).curr.xhat (proxStage P pr stop s).curr.gradPsi := by
+      have h1 := hP (proxStage P pr stop s).curr.gamma (proxStage P pr stop s).curr.x
+        (proxStage P pr stop s).curr.gradPsi
+      simp only [Prod.mk.injEq] at h1
+      constructor
+      · rw [hgood.1.2.1]; exact h1.1
+      · rw [hgood.1.2.2, h1.2, hgood.1.2.1, h1.1]
+    refine ⟨(proxStage P pr stop s).curr, ?_, hγc, ?_, hcons.hxh, hcons.hp, ?_, ?_, ?_⟩
+    · unfold exitBlock
+      simp only [List.getLast?_reverse, List.head?_cons, Option.map_some, hhc.1]
+    · rw [hkeep.1, hkeep.2]; exact hg
+    · intro hn
+      refine ⟨hgood.2 ?_, hgh hn⟩
+      have : needGradHat pr = true := hn
+      simp [this]
+    · rw [(exitBlock_fields P pr _ _ _ x0 y Sig errz0).2.2.2.1]
+      have e1 : (headStep P pr stop oot (proxStage P pr stop s)).2.1 = epsOf P pr (proxStage P pr stop s).curr := by
+        unfold headStep; rfl
+      rw [e1]
+      unfold epsOf
+      exact C06.calcErrorStopCrit_eq_doc hnn PC _ hP pr.stopCrit _ hγc.ne' _ _ _ _ _ _ hcons
+    · intro hw
+      unfold exitBlock at hw ⊢
+      simp only [] at hw ⊢
+      rw [if_pos hw, hhc.1]
+      split_ifs <;> rfl
+
+end field
+
+/-! ### Non-vacuity of `fista_eps_is_documented`: ψ = ½‖x‖² on the box `[-1, 1]²`, criterion `ApproxKKT` -/
+section doc_example
+local instance instRealLikeRatC06Fd : RealLike ℚ := ⟨id, fun _ => false, fun _ => true⟩
+
+def boxPC (v : Vec ℚ) : Vec ℚ := v.map fun a => min (max a (-1)) 1
+
+def boxP : Problem ℚ :=
+  { psiGradPsi := fun x => (sqNorm x / 2, x, []), psi := fun x => (sqNorm x / 2, [3]), gradPsi := fun x => x,
+    gradL := fun x _ => x,
+    prox := fun γ x g => (0, boxPC (vsub x (smul γ g)), vsub (boxPC (vsub x (smul γ g))) x) }
+
+def boxPr : Params ℚ :=
+  { L0 := 2, lipEps := 0, lipDelta := 0, LgammaFactor := 19/20, maxIter := 4, Lmin := 1/100, Lmax := 64,
+    stopCrit := .ApproxKKT, maxNoProgress := 10, qubTol := 0, disableAcceleration := false,
+    alwaysOverwrite := true, tolerance := 1/100000, qubFuel := 64 }
+
+/-- the run: four accelerated iterations from `x₀ = (3, −½)`, `MaxIter`, the written-back `x` is the `x̂` of
+    the final callback and `ε = ‖γ⁻¹(x − x̂) + ∇ψ(x̂) − ∇ψ(x)‖∞` of its data -/
+example : (run boxP boxPr (fun _ => false) false [3, -1/2] [1] [2] [0] [] 0 0).stats.status = .MaxIter ∧
+    (run boxP boxPr (fun _ => false) false [3, -1/2] [1] [2] [0] [] 0 0).stats.iterations = 4 ∧
+    (run boxP boxPr (fun _ => false) false [3, -1/2] [1] [2] [0] [] 0 0).fuelOut = false := by
+  decide +kernel
+
+example : ∃ c : Iterate ℚ,
+    ((run boxP boxPr (fun _ => false) false [3, -1/2] [1] [2] [0] [] 0 0).callbacks.getLast?).map (·.it) = some c ∧
+    0 < c.gamma ∧ c.xhat = boxPC (vsub c.x (smul c.gamma c.gradPsi)) ∧
+    (run boxP boxPr (fun _ => false) false [3, -1/2] [1] [2] [0] [] 0 0).stats.eps =
+      C06.docCrit boxPC .ApproxKKT c.gamma c.x c.xhat c.yhat c.gradPsi c.gradPsiHat := by
+  have hE := (fista_run_cases boxP boxPr (fun _ => false) false [3, -1/2] [1] [2] [0] [] 0 0).resolve_left
+    (fun h => absurd h.2.2.2.2.2.2 (by decide +kernel))
+  obtain ⟨c, h1, h2, _, h4, _, _, h7, _⟩ := fista_eps_is_documented (fun _ => rfl) boxPC boxP
+    (fun _ _ _ => rfl) boxPr (by norm_num [boxPr]) 13
+    ⟨by norm_num [boxPr], by norm_num [boxPr], by norm_num [boxPr], fun _ _ => by norm_num [boxPr],
+      by norm_num [boxPr]⟩
+    (fun _ => false) false [3, -1/2] [1] [2] [0] [] 0 0 hE
+  exact ⟨c, h1, h2, h4, h7⟩
+
+end doc_example
 
 end Alpaqa.Props.C06_Fista
